@@ -163,3 +163,84 @@ theorem range_wellformed (size : Nat) (start end_ : Int) (first last len : Nat)
 
 #print axioms range_wellformed
 end St
+
+/-! ### Round 1: the textual rejection tests of `StaticRoute.__call__`, POSIX `normpath`, and the whole path resolution -/
+namespace St
+
+/-- `_DISALLOWED_CHARS_PATTERN = '[\x00-\x1f\x80-\x9f�~?<>:*|\'"]'` -/
+def disallowedChar (c : Char) : Bool :=
+  c.toNat ≤ 0x1f || (0x80 ≤ c.toNat && c.toNat ≤ 0x9f) || c.toNat == 0xfffd ||
+  c == '~' || c == '?' || c == '<' || c == '>' || c == ':' || c == '*' || c == '|' || c == '\'' || c == '"'
+
+/-- `str.isspace` for one character (what `str.strip()` removes) -/
+def isSpace (c : Char) : Bool :=
+  let n := c.toNat
+  (0x09 ≤ n && n ≤ 0x0d) || (0x1c ≤ n && n ≤ 0x20) || n == 0x85 || n == 0xa0 || n == 0x1680 ||
+  (0x2000 ≤ n && n ≤ 0x200a) || n == 0x2028 || n == 0x2029 || n == 0x202f || n == 0x205f || n == 0x3000
+
+def rstripBy (p : Char → Bool) (s : List Char) : List Char := (s.reverse.dropWhile p).reverse
+/-- `s.strip().rstrip('.')` -/
+def stripDots (s : List Char) : List Char := rstripBy (· == '.') (rstripBy isSpace (s.dropWhile isSpace))
+
+/-- the six textual tests before `normpath`; `true` = the request goes on, `false` = 404 -/
+def sanitise (hasFallback : Bool) (s : List Char) : Bool :=
+  !( (s.isEmpty && !hasFallback)
+     || stripDots s != s
+     || s.any disallowedChar
+     || s.contains '\\'
+     || isInfix ['/', '/'] s
+     || decide (s.length > 512))
+
+def splitOn (sep : Char) (s : List Char) : List (List Char) :=
+  s.foldr (fun c acc => if c == sep then [] :: acc else match acc with | [] => [[c]] | h :: t => (c :: h) :: t) [[]]
+
+def joinSlash : List (List Char) → List Char
+  | [] => []
+  | [a] => a
+  | a :: rest => a ++ ['/'] ++ joinSlash rest
+
+/-- `posixpath.normpath` -/
+def normpath (path : List Char) : List Char :=
+  if path.isEmpty then ['.'] else
+  let initial : Nat :=
+    if startsWith path ['/'] then (if startsWith path ['/', '/'] && !startsWith path ['/', '/', '/'] then 2 else 1) else 0
+  let comps := (splitOn '/' path).foldl (fun (acc : List (List Char)) comp =>
+    if comp.isEmpty || comp == ['.'] then acc
+    else if comp != ['.', '.'] || (initial == 0 && acc.isEmpty) || (acc.getLast? == some ['.', '.']) then acc ++ [comp]
+    else acc.dropLast) []
+  let p := List.replicate initial '/' ++ joinSlash comps
+  if p.isEmpty then ['.'] else p
+
+/-- everything `StaticRoute.__call__` does to the part of the request path after the prefix: `none` = 404 without
+    touching the file system, `some fp` = the one path handed to `io.open` (the fallback file aside) -/
+def serve (hasFallback : Bool) (dir s : List Char) : Option (List Char) :=
+  if sanitise hasFallback s then resolve dir (normpath s) else none
+
+/-- **containment for every request-path suffix**: whatever is opened is `dir + "/" + normpath(suffix)`, contains no
+    `..` anywhere, and the suffix passed all textual tests (no control / reserved characters, no backslash, no `//`,
+    at most 512 characters, no surrounding whitespace, no trailing dot) -/
+theorem serve_contained (fb : Bool) (dir s fp : List Char) (hd : dir ≠ []) (h : serve fb dir s = some fp) :
+    (fp = dir ++ ['/'] ++ normpath s ∨ (dir.getLast? = some '/' ∧ fp = dir ++ normpath s)) ∧
+    isInfix ['.', '.'] fp = false ∧
+    s.any disallowedChar = false ∧ s.contains '\\' = false ∧ isInfix ['/', '/'] s = false ∧ s.length ≤ 512 ∧
+    (fb = false → s ≠ []) := by
+  unfold serve at h
+  split at h
+  · rename_i hs
+    have hr := resolve_contained dir (normpath s) fp hd h
+    refine ⟨hr.1, hr.2, ?_⟩
+    unfold sanitise at hs
+    simp only [Bool.not_eq_true', Bool.or_eq_false_iff, Bool.and_eq_false_iff, decide_eq_false_iff_not] at hs
+    obtain ⟨⟨⟨⟨⟨h1, _⟩, h3⟩, h4⟩, h5⟩, h6⟩ := hs
+    refine ⟨h3, h4, h5, by omega, ?_⟩
+    intro hfb hnil
+    subst hfb; subst hnil
+    simp at h1
+  · cases h
+
+/-- a rejected suffix opens nothing -/
+theorem rejected_opens_nothing (fb : Bool) (dir s : List Char) (h : sanitise fb s = false) : serve fb dir s = none := by
+  simp [serve, h]
+
+#print axioms serve_contained
+end St
